@@ -10,6 +10,7 @@
 From Coq Require Import List ZArith Bool Lia.
 From Verif Require Import Base.Word Base.Outcome Base.FBits Gen.Consts Gen.Leaf
   C07.Model C07.Spec C07.ProofsLeaf C07.ProofsFrac C07.Proofs C07.ProofsJson C07.ProofsFloat.
+From Verif Require Gen.Leaf2 C07.LeafTie.
 Import ListNotations.
 Local Open Scope Z_scope.
 
@@ -172,6 +173,31 @@ Theorem C07_float_widen : forall (f : binfmt) (bs : list Z) (x : Z),
   end.
 Proof. exact float_widen_all. Qed.
 Print Assumptions C07_float_widen.
+
+(* source tie of C07_float_widen (and of every multi-byte field the drivers read): the model's
+   f16_to_f32 (binary16 -> binary32, written through [fround]) EQUALS the function the translator
+   regenerates from the current helper.go halfFloatToFloatBits on every run (Gen/Leaf2.v) on all 65536
+   uint16 — the Go renormalisation loop ends within 10 turns: for every fuel >= 11 the translation
+   answers Ok, never OutOfFuel — and the big-endian value [be_val 0] that [readn] gives to the 2 / 4 / 8
+   bytes after a descriptor EQUALS the translated bigen.Uint16 / Uint32 / Uint64 on every byte array.
+   A behaviour-changing edit of one of these Go functions breaks this obligation. *)
+Theorem C07_float_widen_src_tie :
+  (forall h, 0 <= h < 65536 -> forall fuel : nat, (11 <= fuel)%nat ->
+     Leaf2.halfFloatToFloatBits fuel h = Ok (f16_to_f32 h)) /\
+  (forall a b, 0 <= a < 256 -> 0 <= b < 256 -> Leaf2.bigenHelper_Uint16 [a; b] = be_val 0 [a; b]) /\
+  (forall a b c d, 0 <= a < 256 -> 0 <= b < 256 -> 0 <= c < 256 -> 0 <= d < 256 ->
+     Leaf2.bigenHelper_Uint32 [a; b; c; d] = be_val 0 [a; b; c; d]) /\
+  (forall a b c d e f g h, 0 <= a < 256 -> 0 <= b < 256 -> 0 <= c < 256 -> 0 <= d < 256 ->
+     0 <= e < 256 -> 0 <= f < 256 -> 0 <= g < 256 -> 0 <= h < 256 ->
+     Leaf2.bigenHelper_Uint64 [a; b; c; d; e; f; g; h] = be_val 0 [a; b; c; d; e; f; g; h]).
+Proof. exact LeafTie.float_widen_src_tie. Qed.
+Print Assumptions C07_float_widen_src_tie.
+
+Example C07_float_widen_src_tie_nonvacuous :
+  Leaf2.halfFloatToFloatBits 11 15360 = Ok 1065353216 /\ f16_to_f32 1 = 864026624 /\
+  Leaf2.halfFloatToFloatBits 11 1 = Ok 864026624 /\ Leaf2.halfFloatToFloatBits 9 1 = OutOfFuel /\
+  Leaf2.bigenHelper_Uint32 [1; 2; 3; 4] = 16909060 /\ be_val 0 [255; 255] = 65535.
+Proof. vm_compute. repeat apply conj; reflexivity. Qed.
 
 (* json integer fast path (partial: only the exponent scaling step; readFloat's digit loop
    and parseUint64_simple are not translated yet, json float parsing belongs to C09):
